@@ -284,6 +284,7 @@ func (c08Prop) Execute(p *Plan, run *Run) any {
 		if b < 0 || b > len(data) {
 			continue
 		}
+		tick()
 		out := readAllOut(target, pl.Chunks.OutPtr, openReader(data[:b], pl.Chunks), -1, nil)
 		run.Evals++
 		run.Faults.Inc("W-crash(b)")
